@@ -9,6 +9,7 @@ interleaving of any number of goroutines" is "any sequence".
 import ConfModel.Lemmas.Handoff
 import ConfModel.Lemmas.HandoffGlue
 import ConfModel.Lemmas.HandoffRetry
+import ConfModel.Lemmas.HandoffInit
 namespace ConfModel.Props.C16
 open ConfModel ConfModel.Handoff
 
@@ -630,5 +631,136 @@ example :
       [[("id", "1")], [("id", "3")]] := by decide
 
 end retry
+
+/-! ## The runner's glue around the slots: `Init` precedes the hand-over of the request
+(`runTestCasesForServer` + `fetchTrace`; model `ConfModel.HandoffInit`, op `glue`) -/
+section glue
+open TracerSlots HandoffInit
+
+/-- The code as it is (`Init` first, `initAt = 0`): WHEREVER the producer completes the trace of
+the case — while the request is announced, inside `sendRequest`, between its return and the
+response callback, inside the callback (all of that is `pre`), or after the outcome was recorded
+(`post`) — the waiter of the case hands on exactly the first trace completed for its name, it
+runs into its deadline exactly when there is none, and afterwards no slot remains for the name.
+`hist`, `pre`, `post` are arbitrary (other cases of the batch, other names, other waiters), only
+the case's own slot and waiter are its own. -/
+theorem glue_delivers (hist : List Op) (c : Case)
+    (hw : ∀ o ∈ hist ++ c.pre ++ c.post, usesWaiter c.w o = false)
+    (hslot : ∀ o ∈ c.pre ++ c.post, touches c.name o = false) :
+    caseCollects hist 0 c
+        = (firstComplete c.name (c.pre ++ c.post), (firstComplete c.name (c.pre ++ c.post)).isNone) ∧
+    collectSpec c.name (hist ++ upToOutcome 0 c) c.post = caseCollects hist 0 c ∧
+    (exec init (hist ++ caseOps 0 c)).1.traces c.name = none := by
+  have hidle : (exec init (hist ++ [.init c.name] ++ c.pre)).1.waiters c.w = none := by
+    apply idle_of_unused
+    intro o ho
+    simp only [List.mem_append, List.mem_singleton] at ho
+    rcases ho with (ho | ho) | ho
+    · exact hw o (by simp [ho])
+    · subst ho; rfl
+    · exact hw o (by simp [ho])
+  have h := runner_collects_first hist c.pre c.post c.name c.w hidle hslot
+    (fun o ho => hw o (by simp [ho]))
+  have e : hist ++ upToOutcome 0 c = hist ++ [.init c.name] ++ c.pre := by
+    simp [upToOutcome]
+  refine ⟨?_, ?_, ?_⟩
+  · unfold caseCollects; rw [e]; exact h.1
+  · unfold caseCollects; rw [e, h.1, h.2]
+  · have : hist ++ caseOps 0 c
+        = (hist ++ upToOutcome 0 c ++ [.await c.w c.name] ++ c.post ++ [.join c.w]) ++ [.clear c.name] := by
+      simp [caseOps, List.append_assoc]
+    rw [this]
+    exact exec_snoc_clear _ _
+
+/-- non-vacuity: completion while sending, after the outcome, never; a batch of two -/
+example :
+    caseCollects [] 0 ⟨"a", 0, [.complete "a" 7], []⟩ = (some 7, false) ∧
+    caseCollects [] 0 ⟨"a", 0, [.complete "b" 5], [.complete "a" 7, .complete "a" 8]⟩ = (some 7, false) ∧
+    caseCollects [] 0 ⟨"a", 0, [], [.complete "b" 5]⟩ = (none, true) ∧
+    caseCollects (caseOps 0 ⟨"a", 0, [.complete "a" 7], []⟩) 0 ⟨"b", 1, [.complete "a" 9], [.complete "b" 8]⟩
+      = (some 8, false) := by decide
+
+/-- Why `Init` must precede the hand-over of the request: with `Init` after the first `k`
+operations of `pre`, whatever was completed for the case in those `k` operations is LOST — the
+waiter obtains the first trace completed afterwards, and if there is none it sits out its whole
+deadline although the call's trace was completed. -/
+theorem glue_late_init_loses (hist : List Op) (c : Case) (k : Nat)
+    (hw : ∀ o ∈ hist ++ c.pre ++ c.post, usesWaiter c.w o = false)
+    (hslot : ∀ o ∈ c.pre ++ c.post, touches c.name o = false) :
+    caseCollects hist k c
+      = (firstComplete c.name (c.pre.drop k ++ c.post), (firstComplete c.name (c.pre.drop k ++ c.post)).isNone) := by
+  have hpre : ∀ o ∈ c.pre.take k, o ∈ c.pre := fun o ho => List.mem_of_mem_take ho
+  have hdrop : ∀ o ∈ c.pre.drop k, o ∈ c.pre := fun o ho => List.mem_of_mem_drop ho
+  have hidle : (exec init ((hist ++ c.pre.take k) ++ [.init c.name] ++ c.pre.drop k)).1.waiters c.w = none := by
+    apply idle_of_unused
+    intro o ho
+    simp only [List.mem_append, List.mem_singleton] at ho
+    rcases ho with ((ho | ho) | ho) | ho
+    · exact hw o (by simp [ho])
+    · exact hw o (by simp [hpre o ho])
+    · subst ho; rfl
+    · exact hw o (by simp [hdrop o ho])
+  have h := runner_collects_first (hist ++ c.pre.take k) (c.pre.drop k) c.post c.name c.w hidle
+    (fun o ho => by
+      simp only [List.mem_append] at ho
+      rcases ho with ho | ho
+      · exact hslot o (by simp [hdrop o ho])
+      · exact hslot o (by simp [ho]))
+    (fun o ho => hw o (by simp [ho]))
+  unfold caseCollects upToOutcome
+  rw [← List.append_assoc, ← List.append_assoc]
+  exact h.1
+
+/-- … in particular: a trace completed while the request is handed to the client, when the slot
+is only created afterwards and nothing else is completed for the case, reaches nobody. -/
+theorem glue_complete_before_init_lost (hist : List Op) (c : Case) (k : Nat) (t : Nat)
+    (hw : ∀ o ∈ hist ++ c.pre ++ c.post, usesWaiter c.w o = false)
+    (hslot : ∀ o ∈ c.pre ++ c.post, touches c.name o = false)
+    (_hdone : firstComplete c.name (c.pre.take k) = some t)
+    (hnone : firstComplete c.name (c.pre.drop k ++ c.post) = none) :
+    caseCollects hist k c = (none, true) ∧ caseCollects hist 0 c = (some t, false) := by
+  constructor
+  · rw [glue_late_init_loses hist c k hw hslot, hnone]; rfl
+  · rw [(glue_delivers hist c hw hslot).1]
+    have : c.pre ++ c.post = c.pre.take k ++ (c.pre.drop k ++ c.post) := by
+      rw [← List.append_assoc, List.take_append_drop]
+    rw [this, firstComplete_append, _hdone]; rfl
+
+/-- the witness (decide): the trace completed inside `sendRequest` is delivered with `Init`
+first and lost with `Init` after `sendRequest`; and when the outcome is recorded before a late
+`Init`, the wait fails at once and the late `Init` leaves a slot behind. -/
+example :
+    caseCollects [] 0 ⟨"a", 0, [.complete "a" 7], []⟩ = (some 7, false) ∧
+    caseCollects [] 1 ⟨"a", 0, [.complete "a" 7], []⟩ = (none, true) ∧
+    (exec init (outcomeBeforeInit ⟨"a", 0, [.complete "a" 7], []⟩)).2 = [[.none], [.err], [.none], [.none]] ∧
+    ((exec init (outcomeBeforeInit ⟨"a", 0, [.complete "a" 7], []⟩)).1.traces "a").isSome = true ∧
+    ((exec init (caseOps 0 ⟨"a", 0, [.complete "a" 7], []⟩)).1.traces "a").isSome = false := by decide
+
+/-- a slot created after its waiter is gone stays: whatever follows that does not clear it -/
+theorem glue_outcome_before_init_leaks (c : Case) (hpost : ∀ o ∈ c.post, touches c.name o = false) :
+    slotLive c.name false (outcomeBeforeInit c) = true := by
+  have keep : ∀ (l : List Op) (b : Bool), (∀ o ∈ l, touches c.name o = false) →
+      slotLive c.name b l = b := by
+    intro l
+    induction l with
+    | nil => intro b _; rfl
+    | cons o os ih =>
+      intro b h
+      have ho := h o (by simp)
+      unfold slotLive at ih ⊢
+      rw [List.foldl_cons, ih _ (fun o' ho' => h o' (by simp [ho']))]
+      cases o <;> simp_all [touches]
+  have split : ∀ (a b : List Op) (x : Bool), slotLive c.name x (a ++ b) = slotLive c.name (slotLive c.name x a) b := by
+    intro a b x; unfold slotLive; rw [List.foldl_append]
+  unfold outcomeBeforeInit
+  rw [split, split, keep c.post _ hpost]
+  simp [slotLive]
+
+/-- non-vacuity: the slot of "a" is there at the end, also in the executable model -/
+example : slotLive "a" false (outcomeBeforeInit ⟨"a", 0, [.complete "a" 7], [.complete "a" 8, .clear "b"]⟩) = true ∧
+    ((exec init (outcomeBeforeInit ⟨"a", 0, [.complete "a" 7], [.complete "a" 8, .clear "b"]⟩)).1.traces "a").isSome = true := by
+  decide
+
+end glue
 
 end ConfModel.Props.C16
